@@ -3,15 +3,17 @@ module verifharness
 go 1.23
 
 require (
+	github.com/Masterminds/semver v1.5.0
+	github.com/antlr4-go/antlr/v4 v4.13.1
 	github.com/nyaruka/gocommon v1.59.3
 	github.com/nyaruka/goflow v0.0.0
+	github.com/shopspring/decimal v1.4.0
 )
 
 require (
-	github.com/Masterminds/semver v1.5.0 // indirect
-	github.com/antlr4-go/antlr/v4 v4.13.1 // indirect
 	github.com/blevesearch/segment v0.9.1 // indirect
 	github.com/buger/jsonparser v1.1.1 // indirect
+	github.com/davecgh/go-spew v1.1.1 // indirect
 	github.com/gabriel-vasile/mimetype v1.4.7 // indirect
 	github.com/go-chi/chi/v5 v5.1.0 // indirect
 	github.com/go-playground/locales v0.14.1 // indirect
@@ -22,13 +24,16 @@ require (
 	github.com/leodido/go-urn v1.4.0 // indirect
 	github.com/nyaruka/null/v2 v2.0.3 // indirect
 	github.com/nyaruka/phonenumbers v1.4.3 // indirect
-	github.com/shopspring/decimal v1.4.0 // indirect
+	github.com/pmezard/go-difflib v1.0.0 // indirect
+	github.com/sergi/go-diff v1.3.1 // indirect
+	github.com/stretchr/testify v1.10.0 // indirect
 	golang.org/x/crypto v0.29.0 // indirect
 	golang.org/x/exp v0.0.0-20241108190413-2d47ceb2692f // indirect
 	golang.org/x/net v0.31.0 // indirect
 	golang.org/x/sys v0.27.0 // indirect
 	golang.org/x/text v0.20.0 // indirect
 	google.golang.org/protobuf v1.35.2 // indirect
+	gopkg.in/yaml.v3 v3.0.1 // indirect
 )
 
 replace github.com/nyaruka/goflow => /repo
